@@ -38,7 +38,7 @@ def shards(tier):
 
 
 def timeout(tier):
-    return 300 if tier == "quick" else 1500
+    return 900 if tier == "quick" else 5400
 
 
 from vf.gen.values import DST_ZONES, DstTz  # noqa: E402  (zones whose offset depends on the date, shared with the model generators)
